@@ -469,7 +469,17 @@ func c19Value(o *Out, r *rand.Rand, t reflect.Type, v reflect.Value, nq int) {
 				got, err = c01Safe(func() ([]byte, error) { return gojson.MarshalContext(context.Background(), v.Interface()) })
 			} else {
 				ctx := gojson.SetFieldQueryToContext(context.Background(), j.query)
-				got, err = c01Safe(func() ([]byte, error) { return gojson.MarshalContext(ctx, v.Interface()) })
+				if pass == 1 && k%2 == 0 {
+					// the other observation point: Encoder.EncodeContext
+					got, err = c01Safe(func() ([]byte, error) {
+						var buf bytes.Buffer
+						e := gojson.NewEncoder(&buf).EncodeContext(ctx, v.Interface())
+						return bytes.TrimSuffix(buf.Bytes(), []byte("\n")), e
+					})
+					o.count("query_encodings_through_encoder", 1)
+				} else {
+					got, err = c01Safe(func() ([]byte, error) { return gojson.MarshalContext(ctx, v.Interface()) })
+				}
 			}
 			o.count("query_encodings", 1)
 			if err != nil || !tgSameJSON(got, j.want) {
